@@ -862,16 +862,20 @@ class NonMementoFunctionHashRule(HashRule):
         first_level: bool,
     ):
         # noinspection PyUnresolvedReferences
+        name = obj.__module__ + ":" + obj.__qualname__
+        if getattr(obj, "__name__", None) == "<lambda>":
+            # Every lambda has the same qualified name: tell the lambdas that one function
+            # refers to apart by the symbol each of them is bound to.
+            name += "@" + symbol
         super().__init__(
-            key="Function;{};{}".format(
-                parent_symbol, obj.__module__ + ":" + obj.__qualname__
-            ),
+            key="Function;{};{}".format(parent_symbol, name),
             parent_symbol=parent_symbol,
             symbol=symbol,
             first_level=first_level,
         )
         self.src_fn = obj
         self.resolver = resolver
+        self.qualified_fn_name = name
 
     def clone(self) -> HashRule:
         return NonMementoFunctionHashRule(
@@ -904,8 +908,9 @@ class NonMementoFunctionHashRule(HashRule):
         src_fn = self.src_fn
 
         for dep in list_dotted_names(src_fn):
-            # noinspection PyUnresolvedReferences
-            symbol_parent = src_fn.__module__ + ":" + src_fn.__qualname__
+            # (the same name as in the key of this rule: the dependency graph links a rule to
+            # the rules collected beneath it through this name)
+            symbol_parent = self.qualified_fn_name
             HashRule._visit_dependency(
                 result=result,
                 src_fn=src_fn,
